@@ -229,10 +229,34 @@ where
                 _ => {
                     // morphisms g -> h: sub-hypergraph inclusions (natural by construction), then
                     // possibly one naturality square broken
-                    let h = gen::hg(&mut c.rng, &p);
+                    let h = if c.rng.chance(1, 2) {
+                        // a sparse digraph-like hypergraph (mostly 1→1 edges, one label): long directed
+                        // paths through edges outside a small sub-hypergraph are common here
+                        c.knob("arrow:digraph-like-target");
+                        let nn = c.rng.range(2, m + 3);
+                        let ne = c.rng.range(1, m + 5);
+                        let mut ss = vec![];
+                        let mut ts = vec![];
+                        for _ in 0..ne {
+                            let a = c.rng.below(nn);
+                            let mut bb = c.rng.below(nn);
+                            if c.rng.chance(2, 3) && bb <= a && a + 1 < nn {
+                                bb = c.rng.range(a + 1, nn - 1); // mostly forward edges: long acyclic paths
+                            }
+                            let extra = if c.rng.chance(1, 6) { vec![c.rng.below(nn)] } else { vec![] };
+                            let mut sv = vec![a];
+                            sv.extend(extra);
+                            ss.push(sv);
+                            ts.push(if c.rng.chance(1, 8) { vec![] } else { vec![bb] });
+                        }
+                        RHG { s: RICF::from_segs(&ss, nn), t: RICF::from_segs(&ts, nn), w: vec![0; nn], x: vec![0; ne] }
+                    } else {
+                        gen::hg(&mut c.rng, &p)
+                    };
                     let (nn, ne) = (h.w.len(), h.x.len());
                     // choose a subset of edges and the nodes they touch plus a few more
-                    let mut xs: Vec<usize> = (0..ne).filter(|_| c.rng.chance(1, 2)).collect();
+                    let dens = c.rng.range(2, 4);
+                    let mut xs: Vec<usize> = (0..ne).filter(|_| c.rng.chance(1, dens)).collect();
                     c.rng.shuffle(&mut xs);
                     let (hs, ht) = (h.s.segs(), h.t.segs());
                     let mut keep = vec![false; nn];
@@ -265,7 +289,24 @@ where
                     if ws.is_empty() && xs.is_empty() {
                         c.knob("arrow:empty-subgraph");
                     }
-                    match c.rng.below(12) {
+                    match c.rng.below(14) {
+                        12 | 13 if g.x.len() >= 2 => {
+                            // the flattened incidence stays the same but a segment boundary moves:
+                            // [a b | c] vs [a | b c] (same-label neighbours, zero-arity edges included)
+                            let src_side = c.rng.chance(1, 2);
+                            let ic = if src_side { &mut g.s } else { &mut g.t };
+                            let k = ic.sources.table.len();
+                            let i = c.rng.below(k - 1);
+                            if ic.sources.table[i] > 0 && c.rng.chance(1, 2) {
+                                ic.sources.table[i] -= 1;
+                                ic.sources.table[i + 1] += 1;
+                                c.knob("arrow:segment-boundary-shifted");
+                            } else if ic.sources.table[i + 1] > 0 {
+                                ic.sources.table[i + 1] -= 1;
+                                ic.sources.table[i] += 1;
+                                c.knob("arrow:segment-boundary-shifted");
+                            }
+                        }
                         0 if !g.w.is_empty() => {
                             c.knob("arrow:node-label-changed");
                             g.w[0] = (g.w[0] + 1) % 3
